@@ -445,6 +445,19 @@ func validateNatively(r *HarnessResult, n *Native, tier, replayDir string, probl
 					v.Reproduced = true
 				}
 			}
+			if !v.Reproduced && r.H.Flags["lockset"] {
+				// schedule-dependent: replay with the logical threads really concurrent, under the race detector
+				n.BuildRace()
+				if n.RaceBin != "" {
+					rv := vecForNative(r.H, v.Vector, tier)
+					rv["Vec"].(map[string]string)["vp!seq"] = "0"
+					raw := n.RunRace(rv, 8)
+					if strings.Contains(raw, "VP-ASSERT-FAIL "+v.Label) || strings.Contains(raw, "DATA RACE") {
+						v.Reproduced = true
+						v.NativeOut = firstLines(raceExcerpt(raw), 14)
+					}
+				}
+			}
 		case "panic":
 			kind := strings.TrimPrefix(v.Label, "panic:")
 			if j := strings.Index(kind, "@"); j >= 0 {
